@@ -374,9 +374,9 @@ theorem acquire_meets_prologue (root caller child : State) (fa : Addr)
 
 /-- **frame_shift_partial.**  One instruction of the child (frame 0, base 0) and one instruction of the
     parent inside the callee's frame (frame k, base bp) from `ShB`-related states, when the fetched
-    opcode is one of the 34 `coveredOps` (all but CALL, CALLNAME, RETURN, THROW, SETUPTRY, SETUPCATCH,
-    SETUPFINALLY, FINALIZER, MAP, GETINDEX) and, for GETLOCAL / SETLOCAL / GETLOCALPTR, its operand is
-    below `L = NumLocals` (`StepOk`): if both `step`s end normally then EITHER both continue (`.next`)
+    opcode is one of the 36 `coveredOps` (all but CALL, CALLNAME, RETURN, THROW, SETUPTRY, SETUPCATCH,
+    SETUPFINALLY, FINALIZER) and, for GETLOCAL / SETLOCAL / GETLOCALPTR, its operand is below
+    `L = NumLocals`, for MAP its operand is even (`StepOk`): if both `step`s end normally then EITHER both continue (`.next`)
     and the states are `ShB`-related again, OR the child's loop returns with `vm.err` set — an uGO
     error raised by the instruction, which nobody in the (handler-free) callee catches.  No claim when a
     side ends with a Go panic or leaves the modelled subset: the child has `bp` more stack slots and
@@ -389,7 +389,7 @@ theorem frame_shift_partial (F : FloatOps) (bp k L : Nat) (s t : State) (h : ShB
 /-- the opcode list of `frame_shift_partial`, by number (opcodes.go) -/
 theorem coveredOps_eq : coveredOps =
     [0, 1, 3, 4, 5, 6, 7, 8, 9, 10, 11, 12, 13, 14, 15, 17, 18, 20, 21, 22, 23, 24, 25, 26, 27, 28, 29, 30, 31, 32, 33,
-     40, 41, 42] := by decide
+     40, 41, 42, 16, 19] := by decide
 
 /-- non-vacuity of `ShB`: a VM at `frameIndex = 1` is related to itself with `bp = 0`, `k = 0` -/
 example : ShB 0 0 0 ({ newState #[] #[] #[] 0 0 with frameIndex := 1 } : State)
@@ -413,7 +413,7 @@ example : ShB 0 0 0 ({ newState #[] #[] #[] 0 0 with frameIndex := 1 } : State)
     yields when run to the matching RETURN.  Proved parts: `acquire_complete`, `release_zeroes`,
     `pool_fresh`, `pool_acquire_eq_new`, `pool_release_inv`, `acquire_fields`, `initLocals_eq_callbind`,
     `prologue_eq_callbind` (the entries), `frame_shift_partial` (one covered instruction).  Missing:
-    CALL / RETURN / THROW and the handler opcodes, MAP, GETINDEX, the iteration of `frame_shift_partial`
+    CALL / RETURN / THROW and the handler opcodes, the iteration of `frame_shift_partial`
     over the loop, the epilogue (`resultValue`, `invResOf`) and the host-aware loop `loopI`; as stated
     (no resource hypothesis) it is false at the stack / frame limits, where the child has more room. -/
 def C14_full : Prop :=
